@@ -212,9 +212,9 @@ def S_bnot(n):
     return spec
 
 
-def entry(op, spec, ins, params=None, alt=(), k=10, what="", variants=(), pre=None):
+def entry(op, spec, ins, params=None, alt=(), k=10, what="", variants=(), pre=None, pre_smt=None):
     return dict(op=op, spec=spec, ins=list(ins), params=params or {}, alt=[list(a) for a in alt], k=k, what=what,
-                variants=list(variants), boundary=True, pre=pre)
+                variants=list(variants), boundary=True, pre=pre, pre_smt=pre_smt, complete=True)
 
 
 def V_wraps(d, only_rem=False):
@@ -365,10 +365,11 @@ def family(tier, seed):
         if bound is not None:
             params["bound"] = bound
         pre = (lambda t, b=bound: t[0] <= b) if bound is not None else None   # "the bound on the dividend is the caller's responsibility"
+        pre_smt = (lambda e, I, b=bound: le(I[0], b)) if bound is not None else None
         E.append(entry("div_rem", S_div_rem(d, bound), [x], params, alt=[[0], [hi], [d], [d - 1]],
-                       variants=[("quotient-wraps-modulus", V_wraps(d))], pre=pre))
+                       variants=[("quotient-wraps-modulus", V_wraps(d))], pre=pre, pre_smt=pre_smt))
         E.append(entry("rem", S_div_rem(d, bound, only_rem=True), [x], params, alt=[[0], [hi]],
-                       variants=[("quotient-wraps-modulus", V_wraps(d, only_rem=True))], pre=pre))
+                       variants=[("quotient-wraps-modulus", V_wraps(d, only_rem=True))], pre=pre, pre_smt=pre_smt))
     # ---- Bitwise ----
     for n in ([1, 4, 8, 9, 16] if tier == "quick" else [1, 2, 4, 7, 8, 9, 16, 24, 32, 64]):
         x, y = rnd.randrange(1 << n), rnd.randrange(1 << n)
